@@ -66,11 +66,20 @@ def run(tier):
         scen.append({"mode": "rates", "rate0": 8, "src": "sequential-" + kind, "steps": [
             {"act": "GLoad", "kind": "sub"}, {"act": "GEnqueue"}, {"act": "Callback"}, {"act": "Emit"},
             {"act": "GLoad", "kind": kind}, {"act": "GEnqueue"}, {"act": "Change", "r": 20}, {"act": "Callback"}, {"act": "Emit"}, {"act": "Emit"}]})
+    # a track whose handle has been dropped but which lives on (a nested track keeps it) is still told about a change
+    scen.append({"mode": "rates", "rate0": 8, "src": "sequential-dropped-parent", "steps": [
+        {"act": "GLoad", "kind": "sub"}, {"act": "GEnqueue"}, {"act": "GLoad", "kind": "nested"}, {"act": "GEnqueue"},
+        {"act": "Callback"}, {"act": "Emit"}, {"act": "Emit"}, {"act": "DropParent"}, {"act": "Callback"}, {"act": "Emit"}, {"act": "Emit"},
+        {"act": "Change", "r": 20}, {"act": "Callback"}, {"act": "Emit"}, {"act": "Emit"}, {"act": "Emit"}]})
     for what in ("sound", "clock", "echo"):
         for r in (8, 10, 20, 40):
             scen.append({"mode": "measure", "what": what, "rates": [r], "src": "grid"})
         for r1, r2 in ((8, 20), (40, 10), (10, 8)) + (((20, 40), (20, 8)) if what == "echo" else ()):
             scen.append({"mode": "measure", "what": what, "rates": [r1, r2], "switch_ms": 1000, "src": "grid-change"})
+    # a delay time that is not a whole number of milliseconds, at audio rates and across changes (times in microseconds)
+    for rr in ([8000], [4000], [8000, 4000], [4000, 8000], [2000, 8000]):
+        scen.append({"mode": "measure", "what": "echo", "rates": rr, "switch_ms": 100, "unit": 1000000, "cbf": 64, "limit": 200,
+                     "delay_us": 12750, "src": "grid-submillisecond"})
     # hertz: the rise time of a 10 Hz low-pass filter, at one rate and across a change before the step
     for r in (400, 1000, 2000):
         scen.append({"mode": "measure", "what": "filter", "rates": [r], "src": "grid"})
